@@ -685,7 +685,7 @@ def tags_of(ir):
             tags.add("returns_only")
         if "default" in r:
             tags.add("returns_default")
-            if re.search(r"\.(?!\d)", r["default"]):
+            if isinstance(r["default"], str) and re.search(r"\.(?!\d)", r["default"]):
                 tags.add("returns_default_dot")
         if "typ" not in r:
             tags.add("returns_untyped")
